@@ -3,6 +3,7 @@
 package main
 
 import (
+	"time"
 	"encoding/json"
 	"flag"
 	"fmt"
@@ -74,7 +75,20 @@ func main() {
 			cases = append(cases, Case{Kind: "skipped"})
 			continue
 		}
-		cases = append(cases, p.Gen(caseRng(*seed, idx), *tier, idx))
+		// every case runs under a watchdog: a call of the library that never returns (a lock that is never
+		// released, a loop that never ends) is a failing case with this very input as its replay — the
+		// generation stops there, later cases would run next to a goroutine that is still stuck
+		done := make(chan Case, 1)
+		go func(idx int) { done <- p.Gen(caseRng(*seed, idx), *tier, idx) }(idx)
+		select {
+		case c := <-done:
+			cases = append(cases, c)
+		case <-time.After(caseTimeout):
+			cases = append(cases, Case{Kind: "hang", Desc: map[string]any{"index": idx, "note": "regenerate with -index to see the input"},
+				Fail: []string{fmt.Sprintf("the case did not terminate within %v (deadlock or divergence in the library)", caseTimeout)}, Nontrivial: true,
+				Key: fmt.Sprint("hang", idx)})
+			i = *n
+		}
 	}
 	// write
 	jl, err := os.Create(filepath.Join(*out, "cases.jsonl"))
@@ -158,6 +172,9 @@ func main() {
 	b, _ := json.MarshalIndent(sum, "", " ")
 	_ = os.WriteFile(filepath.Join(*out, "summary.json"), b, 0o644)
 }
+
+// generous: the slowest healthy case (a 1.4 MB document, a 2048-iteration loop) takes about a second
+const caseTimeout = 120 * time.Second
 
 // every run of the harness works in its own temporary directory (two checks may run at once)
 var procTmpRoot string
